@@ -78,6 +78,9 @@ def all_mutants(with_anc):
         ms.append({"kind": "shorten", "attr": a})
         ms.append({"kind": "lengthen", "attr": a})
     ms.append({"kind": "dup_name"})
+    # a line of the names list copied in place: one entry too many, one of
+    # them twice
+    ms.append({"kind": "dup_insert"})
     ms.append({"kind": "permute_defaults"})
     ms.append({"kind": "permute_defaults_late"})
     ms.append({"kind": "fewer_defaults"})
@@ -97,7 +100,8 @@ def expected_error(mutant):
         return "either"
     if k == "delete":
         return ModelIncompleteError
-    if k in ("shorten", "lengthen", "dup_name", "permute_defaults",
+    if k in ("shorten", "lengthen", "dup_name", "dup_insert",
+             "permute_defaults",
              "permute_defaults_late", "fewer_defaults"):
         return ModelImplementationError
     if k == "more_defaults":
@@ -129,6 +133,8 @@ def render(spec):
                  "parameter_units": "m"}[mut["attr"]])
         elif k == "dup_name":
             names[1] = names[0]
+        elif k == "dup_insert":
+            names.insert(1, names[0])
         elif k == "permute_defaults":
             dlines[0], dlines[1] = dlines[1], dlines[0]
         elif k == "permute_defaults_late":
@@ -151,7 +157,13 @@ def render(spec):
         a = spec["anc"]
         akeys = ["E", "anc_x"] + (["R"] if "R" in a else []) + (
             ["contact_point"] if "contact_point" in a else [])
-        body = ", ".join(f"{k!r}: float({str(a[k])!r})" for k in akeys)
+        def _val(k):
+            if a[k] == "data":
+                # an ancillary that depends on the (preprocessed) data
+                return ('(float(np.max(idnt["tip position"])) * 1e9 + 100.0'
+                        ' if "tip position" in idnt else float("nan"))')
+            return f"float({str(a[k])!r})"
+        body = ", ".join(f"{k!r}: {_val(k)}" for k in akeys)
         anc = ("def compute_ancillaries(idnt):\n"
                f"    return {{{body}}}\n\n")
         attrs["parameter_anc_keys"] = repr(akeys)
@@ -287,7 +299,8 @@ class RegistryEngine:
             if rng.random() < 0.5 or (
                     mutant and mutant.get("attr") in ANC_TRIO + [
                         "compute_ancillaries"]):
-                spec["anc"] = {"E": rng.choice([1234.5, float("nan"), 50.0]),
+                spec["anc"] = {"E": rng.choice([1234.5, float("nan"), 50.0,
+                                                "data", "data"]),
                                "anc_x": rng.choice([1e-6, float("nan")])}
                 if rng.random() < 0.5:
                     # an ancillary that matches a parameter which is fixed
@@ -862,8 +875,17 @@ class RegistryEngine:
 
     def check_seeding(self, key, spec, cfg, feats, i):
         idnt = curves.make_curve(cfg)
+        p0 = None
         with warnings.catch_warnings():
             warnings.simplefilter("ignore")
+            if (eff_anc(spec) or {}).get("E") == "data":
+                try:
+                    p0 = idnt.get_initial_fit_parameters(model_key=key)
+                except _caught() as e:
+                    return make_violation(
+                        self.prop, "M5", f"raises:{type(e).__name__}", feats,
+                        f"get_initial_fit_parameters on the raw curve "
+                        f"raised {type(e).__name__}: {e}", i)
             idnt.apply_preprocessing(["compute_tip_position",
                                       "correct_force_offset",
                                       "correct_tip_offset"])
@@ -876,7 +898,32 @@ class RegistryEngine:
                     f"{type(e).__name__}: {e}", i)
         anc = eff_anc(spec)
         want_E = 3e3
-        if anc and anc["E"] == anc["E"]:
+        if anc and anc["E"] == "data":
+            # before the pipeline ran there was no tip position (nothing to
+            # seed with); now there is; and it follows a change of the
+            # pipeline
+            want_E = float(np.max(idnt["tip position"])) * 1e9 + 100.0
+            if p0 is not None and p0["E"].value != 3e3:
+                return make_violation(
+                    self.prop, "M5", "seed-E", dict(feats, anc="data:raw"),
+                    f"initial E on the raw curve is {p0['E'].value}, "
+                    f"expected the default 3000.0 (the ancillary is NaN "
+                    f"without a tip position)", i)
+            with warnings.catch_warnings():
+                warnings.simplefilter("ignore")
+                idnt.apply_preprocessing(
+                    ["compute_tip_position", "correct_force_offset",
+                     "correct_tip_offset"],
+                    {"correct_tip_offset": {"method": "fit_constant_line"}})
+                p2 = idnt.get_initial_fit_parameters(model_key=key)
+            want2 = float(np.max(idnt["tip position"])) * 1e9 + 100.0
+            if p2["E"].value != want2:
+                return make_violation(
+                    self.prop, "M5", "seed-E", dict(feats, anc="data:again"),
+                    f"initial E after a change of the pipeline is "
+                    f"{p2['E'].value}, the model's ancillary now gives "
+                    f"{want2}", i)
+        elif anc and anc["E"] == anc["E"]:
             want_E = anc["E"]
         if p["E"].value != want_E:
             return make_violation(
